@@ -21,8 +21,8 @@ class UserStr(str):
     """A user-defined str subclass: still 'a text'."""
 
 
-def whitespace_extremes(text, rng=None):
-    """(label, variant) pairs that normalise to the same text as `text`."""
+def whitespace_extremes(text, rng=None, huge=False):
+    """(label, variant) pairs that normalise to the same text as `text`. huge=True adds million-character paddings."""
     ws = gens.WHITESPACE
     out = [("every-gap-space", " " + " ".join(text) + " "),
            ("every-gap-mixed", "".join(ws[(i * 7) % len(ws)] + c for i, c in enumerate(text)) + "\t\n"),
@@ -33,6 +33,9 @@ def whitespace_extremes(text, rng=None):
            ("lead-trail-mid-200", " " * 200 + text[:3] + "\xa0" * 200 + text[3:] + "\n" * 200),
            ("trail-5000", text + " " * 5000),
            ("lead-70000", "\n" * 70000 + text)]
+    if huge:
+        out += [("trail-1.1M", text + " " * 1_100_000), ("lead-4.3M", "\t" * 4_300_000 + text),
+                ("mid-17M", text[:4] + " " * 17_000_000 + text[4:])]
     return out
 
 
